@@ -43,6 +43,12 @@ type onode struct {
 	// holds it (a sparse file with more hole than data); the view refuses to
 	// open such a member (finding sparse-oversize-refused).
 	oversize bool
+	// Header fields of the member that decides the node's metadata: the last
+	// regular file written to it, else the member that created it. implied:
+	// no member created the node (a parent made on the way).
+	hsize, mode, mtimeS int64
+	mtimeN              int
+	implied             bool
 	target string // 's': raw target; 'h': target name (root relative, raw)
 	// lexTarget is the symlink target as the view spells it: cleaned lexically
 	// against the directory part of the member's literal name.
@@ -199,7 +205,7 @@ func (t *otree) parentDir(elems []string) (*onode, string) {
 	for i, c := range elems[:len(elems)-1] {
 		n := cur.kids[c]
 		if n == nil {
-			n = &onode{kind: 'd', name: c, parent: cur, kids: map[string]*onode{}, lit: strings.Join(elems[:i+1], "/")}
+			n = &onode{kind: 'd', name: c, parent: cur, kids: map[string]*onode{}, lit: strings.Join(elems[:i+1], "/"), implied: true}
 			cur.kids[c] = n
 			t.flags.impliedDirs++
 		}
@@ -242,8 +248,12 @@ func extract(ms []member) *otree {
 		base := elems[len(elems)-1]
 		old := dir.kids[base]
 		lit := strings.Join(elems, "/")
+		meta := func(n *onode) {
+			n.hsize, n.mode, n.mtimeS, n.mtimeN = m.HSize, m.Mode&0o7777, m.MTimeS, m.MTimeN
+		}
 		mk := func(kind byte) *onode {
 			n := &onode{kind: kind, name: base, parent: dir, lit: lit}
+			meta(n)
 			dir.kids[base] = n
 			return n
 		}
@@ -262,6 +272,7 @@ func extract(ms []member) *otree {
 			case old.kind == 'h' && t.unbound(old):
 				// The link could not be created so far, so the name is free.
 				old.kind, old.target, old.kids, old.lit = 'd', "", map[string]*onode{}, lit
+				meta(old)
 				t.other("dir-over-unbound-hardlink")
 			default:
 				t.other("dir-over-nondir")
@@ -273,18 +284,21 @@ func extract(ms []member) *otree {
 				n.data, n.oversize = m.Data, m.HSize > m.Seg
 			case old.kind == 'f':
 				old.data, old.oversize = m.Data, m.HSize > m.Seg
+				meta(old)
 			case old.kind == 'h':
 				// Replaces the link itself (it is bound at the end).
 				old.kind, old.data, old.target, old.oversize = 'f', m.Data, "", m.HSize > m.Seg
+				meta(old)
 				t.other("file-over-hardlink")
 			case old.kind == 's':
 				t.other("file-over-symlink")
-				t.writeThrough(old, m.Data, m.HSize > m.Seg)
+				t.writeThrough(old, m)
 			case old.kind == 'd':
 				t.nonWF("file-over-dir")
 			default:
 				t.other("file-over-special")
 				old.kind, old.data, old.oversize = 'f', m.Data, m.HSize > m.Seg
+				meta(old)
 			}
 		case 's':
 			if old != nil {
@@ -433,7 +447,11 @@ func (t *otree) lexCheck(n *onode) {
 // open(O_CREAT|O_TRUNC) semantics): the file the chain ends at is replaced;
 // if the last link dangles and the directory of its target exists, the file
 // is created there.
-func (t *otree) writeThrough(n *onode, data []byte, oversize bool) {
+func (t *otree) writeThrough(n *onode, m member) {
+	data, oversize := m.Data, m.HSize > m.Seg
+	meta := func(n *onode) {
+		n.hsize, n.mode, n.mtimeS, n.mtimeN = m.HSize, m.Mode&0o7777, m.MTimeS, m.MTimeN
+	}
 	hops := 0
 	cur := n
 	var via *onode // the last link of the chain
@@ -468,7 +486,9 @@ func (t *otree) writeThrough(n *onode, data []byte, oversize bool) {
 				t.nonWF("file-over-dangling-symlink")
 				return
 			}
-			pd.kids[last] = &onode{kind: 'f', name: last, parent: pd, data: data, oversize: oversize}
+			nn := &onode{kind: 'f', name: last, parent: pd, data: data, oversize: oversize}
+			meta(nn)
+			pd.kids[last] = nn
 			return
 		}
 		cur = nx
@@ -481,8 +501,10 @@ func (t *otree) writeThrough(n *onode, data []byte, oversize bool) {
 	switch cur.kind {
 	case 'f':
 		cur.data, cur.oversize = data, oversize
+		meta(cur)
 	case 'h':
 		cur.kind, cur.data, cur.target, cur.oversize = 'f', data, "", oversize
+		meta(cur)
 	default:
 		t.nonWF("file-over-symlink-to-" + string(cur.kind))
 	}
